@@ -13,7 +13,7 @@ classdef Time < handle
         function self = Time(nanoseconds_since_midnight)
             if nargin > 0
                 if nanoseconds_since_midnight < 0 || nanoseconds_since_midnight >= 24*60*60*1e9
-                    throw(yardl.ValuError("Time must be between 00:00:00 and 23:59:59.999999999"));
+                    throw(yardl.ValueError("Time must be between 00:00:00 and 23:59:59.999999999"));
                 end
                 self.nanoseconds_since_midnight = nanoseconds_since_midnight;
             else
